@@ -946,3 +946,30 @@ func ints(v ...int) []*big.Int {
 	}
 	return out
 }
+
+// assignLike / lhsLike: the right-hand side / the left-hand side of the nth assignment whose target starts with `prefix`
+// (e.g. "data[": the indexed stores into data, in source order)
+func (n cnode) assignPairs(prefix string) (lhs, rhs []ast.Node) {
+	ast.Inspect(n.n, func(m ast.Node) bool {
+		if x, ok := m.(*ast.AssignStmt); ok && len(x.Lhs) == len(x.Rhs) {
+			for i, l := range x.Lhs {
+				if strings.HasPrefix(render(l), prefix) {
+					lhs = append(lhs, l)
+					rhs = append(rhs, x.Rhs[i])
+				}
+			}
+		}
+		return true
+	})
+	return
+}
+
+func (n cnode) assignLike(prefix string, nth int) cnode {
+	_, r := n.assignPairs(prefix)
+	return n.pick("assignment to "+prefix+"…", nth, r)
+}
+
+func (n cnode) lhsLike(prefix string, nth int) cnode {
+	l, _ := n.assignPairs(prefix)
+	return n.pick("target "+prefix+"…", nth, l)
+}
